@@ -8,7 +8,10 @@ import itertools
 from .. import impl
 
 # package-declared names used in the menu
-PKG_DECL = {'\\textcolor': 'xcolor', 'proof': 'amsthm', '\\gls': 'glossaries', '\\text': 'amsmath'}
+PKG_DECL = {'\\textcolor': 'xcolor', 'proof': 'amsthm', '\\gls': 'glossaries', '\\text': 'amsmath', 'tikzpicture': 'tikz',
+            '\\includegraphics': 'graphicx'}
+# packages that load other packages
+REQUIRES = {'pgfplots': ['graphicx', 'tikz']}
 
 # item: (source, events)   events: ('use', name) ('def', name, body-events) ('load', pkg) ('usem', macro)
 ITEMS = [
@@ -46,12 +49,17 @@ ITEMS = [
     # arguments that the filter only looks at as text (length, phantom content)
     ('A\\hspace{\\ua}B', [('use', '\\ua')]),
     ('\\phantom{\\ub x}', [('use', '\\ub')]),
+    # a package that requires two others, one of them possibly loaded before with other options
+    ('\\usepackage[draft]{graphicx}', [('load', 'graphicx')]),
+    ('\\usepackage{pgfplots}', [('load', 'pgfplots')]),
+    ('\\begin{tikzpicture}\\end{tikzpicture}', [('use', 'tikzpicture')]),
+    ('\\includegraphics{f}', [('use', '\\includegraphics')]),
 ]
 # phrase replacements must not touch the list of names
 REPL = ['\\ua & \\replaced\n', 'ux & uy\n', '\\ub \\uc & \n']
-PACKS = {'': set(), '*': {'xcolor', 'amsthm', 'glossaries', 'amsmath'}, 'xcolor': {'xcolor'}, 'amsthm,amsmath': {'amsthm', 'amsmath'},
-         'xcolor,': {'xcolor'}, 'amsthm,,amsmath': {'amsthm', 'amsmath'}, 'cleveref,*': {'xcolor', 'amsthm', 'glossaries', 'amsmath'},
-         '*,cleveref': {'xcolor', 'amsthm', 'glossaries', 'amsmath'}}
+PACKS = {'': set(), '*': {'xcolor', 'amsthm', 'glossaries', 'amsmath', 'tikz', 'graphicx', 'pgfplots'}, 'xcolor': {'xcolor'}, 'amsthm,amsmath': {'amsthm', 'amsmath'},
+         'xcolor,': {'xcolor'}, 'amsthm,,amsmath': {'amsthm', 'amsmath'}, 'cleveref,*': {'xcolor', 'amsthm', 'glossaries', 'amsmath', 'tikz', 'graphicx', 'pgfplots'},
+         '*,cleveref': {'xcolor', 'amsthm', 'glossaries', 'amsmath', 'tikz', 'graphicx', 'pgfplots'}}
 
 
 def model(seq, pack):
@@ -81,6 +89,7 @@ def model(seq, pack):
             defined[ev[1]] = ev[2]
         elif ev[0] == 'load':
             loaded.add(ev[1])
+            loaded.update(REQUIRES.get(ev[1], []))
     for i in seq:
         for ev in ITEMS[i][1]:
             run(ev)
